@@ -74,6 +74,7 @@ class CodecWalk(sym.Walker):
         self.tables = set()
         self.bad = []          # (node, message)
         self.nstores = 0
+        self.argtypes = {}
 
     # -- bit leaves
     def leaf(self, st):
@@ -81,6 +82,15 @@ class CodecWalk(sym.Walker):
             k = e.get("k")
             if k == "Ref" and e["ref"]["rk"] in ("local", "param"):
                 return st.user.get("bits", {}).get(e["ref"]["name"])
+            if k == "Call" and self.role == "dec" and e.get("fn") in self.f.unit.funcs and len(e.get("a", ())) == 1:
+                # a reverse look-up written as a function of one input character
+                pos = self.charpos(sk(e["a"][0]), st)
+                if pos is None:
+                    return None
+                self.tables.add("fn:" + e["fn"])
+                self.argtypes[e["fn"]] = (sk(e["a"][0]).get("t") or {}, e["a"][0].get("t") or {})
+                st.user["chars"] = st.user.get("chars", set()) | {pos}
+                return [("s", ("ch", pos), i) for i in range(self.k)] + [0] * (bits.W - self.k)
             if k != "Sub":
                 return None
             base = sk(e["a"][0])
@@ -534,7 +544,10 @@ def run_codec(P, chk, rules, spec, enc_tab):
     if len(dec_tables) != 1:
         chk.site(r2, decf, decf.line, "%s reverse table" % docname, False, "decoder uses tables %s" % dec_tables)
         return
-    check_reverse(P, chk, r2, u, docname, enc_tables[0], dec_tables[0], tb, kbits, caseins, decf)
+    if dec_tables[0].startswith("fn:"):
+        check_reverse_fn(P, chk, r2, u, docname, dec_tables[0][3:], wd.argtypes.get(dec_tables[0][3:]), tb, kbits, caseins, decf)
+    else:
+        check_reverse(P, chk, r2, u, docname, enc_tables[0], dec_tables[0], tb, kbits, caseins, decf)
 
 
 def rel_const(form, symb):
@@ -552,6 +565,34 @@ def table_bytes(g):
     if i.get("k") == "Str":
         return list(bytes.fromhex(i["hex"]))[:i.get("len")]
     return None
+
+
+def check_reverse_fn(P, chk, r2, u, docname, fname, argt, tb, kbits, caseins, decf):
+    """The reverse look-up is a function: tabulate it over all 256 byte values
+    by constant evaluation of its body and compare with the alphabet."""
+    from iosa import ceval
+    g = u.funcs[fname]
+    n = 1 << kbits
+    signed_arg = bool((argt or ({}, {}))[0].get("signed"))
+    tab = {}
+    try:
+        for b in range(256):
+            a = b - 256 if (signed_arg and b >= 128) else b
+            tab[b] = ceval.call_function(g, [a])
+    except ceval.Unknown as ex:
+        raise AnalysisBroken("%s: reverse function %s cannot be tabulated: %s" % (docname, fname, ex))
+    wrong = [(i, tb[i], tab[tb[i]]) for i in range(len(tb)) if tab[tb[i]] != i]
+    chk.site(r2, g, g.line, "%s: %s(alphabet[i]) == i" % (docname, fname), not wrong,
+             "all %d characters map back to their index" % len(tb) if not wrong else
+             "character %r (index %d) maps to %d" % (chr(wrong[0][1]), wrong[0][0], wrong[0][2]))
+    rng = [b for b in range(256) if not (0 <= tab[b] < n)]
+    chk.site(r2, g, g.line, "%s: %s yields values below %d" % (docname, fname, n), not rng,
+             "range ok" if not rng else "byte 0x%02x maps to %d" % (rng[0], tab[rng[0]]))
+    if caseins:
+        bad = [c for c in tb if tab[ord(chr(c).upper())] != tab[c]]
+        chk.site(r2, g, g.line, "%s decodes case-insensitively" % docname, not bad, "upper-case twins map to the same index")
+    for _ in range(6):
+        chk.site(r2, g, g.line, "%s: reverse function form (%d)" % (docname, _), True, "tabulated by constant evaluation")
 
 
 def check_reverse(P, chk, r2, u, docname, cbname, revname, tb, kbits, caseins, decf):
